@@ -119,6 +119,22 @@ PROPS["C19"] = {
     "level_text": "For every term of every explored path the context handed to OnPromote is inspected at quiescent points: cancelled once the term is over (every cause), not cancelled while the term lasts and the callback (which blocks on the context) is still running.",
     "level_note": "as C08",
 }
+PROPS["C02"] = {
+    "groups": [{"run": "^vpH_C02_T_|^vpH_C07_T_leftover$|^vpH_C09_T_stop_(leader|slow_create)$"}],
+    "bounds": {"quick": "TTL margin: H symbolic in [100ms,10s], TTL symbolic in [3H,3H+2s], every store latency symbolic below H/2, three heartbeats, at most 5 store operations: the record replaced by each refresh was still live. Churn: one real instance (H=1s, TTL=3s) next to a protocol-conforming environment ('the others': creates the record when vacant, refreshes / deletes only its own), Stop / StopWithContext{DeleteKey} / {DeleteKey,WaitForDemote} and optional restart placed by the explorer at every store-visible point within 2H, one environment action at every store-visible point within 3H; plus the C07 vacancy scenario and the C09 stop-of-a-leader and slow-Create scenarios; the claim (IsLeader => live record names the instance and carries its token) is checked inside the Metrics.SetIsLeader callback at every flag change and at the end"},
+    "outside": "latencies of H/2 and above; preemption (excluded by the statement); more than one environment action per run; 'at most one leader' is the corollary of per-instance claim-backing (a record names one instance) stated in DESIGN section 3, not a two-real-instance exploration",
+    "assumptions": ["other instances are represented by the environment thread obeying the protocol (assume-guarantee, DESIGN section 3)"],
+    "level_text": "The real acquisition, heartbeat and stop code runs under a symbolic clock with symbolic H, TTL and latencies (TTL margin as a linear-arithmetic obligation) and under explorer-placed stop/restart/environment actions; the claim-backing invariant is asserted at every change of the leadership flag, not on a sampling grid.",
+    "level_note": "One real instance + environment; reductions R1/R2; bounded windows.",
+}
+PROPS["C01"] = {
+    "groups": [{"run": "^vpH_C01_T_|^vpH_C10_T_safety$|^vpH_C08_T_causes$|^vpH_C09_T_stop_leader$|^vpH_C07_T_leftover$"}],
+    "bounds": {"quick": "every successful mutation issued by the real instance in the scenario families C01 (leader preempted by a priority-9 participant and shut down with DeleteKey, both at explorer-chosen store-visible points; takeover-enabled leader with watcher and acquisition rounds around it preempted at any point), C10 safety (symbolic priorities, interfering third party), C08 (every cause of term end, two terms), C09 (stop variants at every point), C07 (vacancy during a leftover round) is audited against the four allowed forms over the store's complete mutation log; every operation's key argument must equal the group; static cross-check that every function containing a KeyValue.Create/Update/Delete call site was executed"},
+    "outside": "several groups in one bucket run concurrently (the key argument is checked per operation instead); more than one real instance (environment writers obey the guarantee being checked)",
+    "assumptions": [],
+    "level_text": "Guarantee G of the assume-guarantee argument: one real instance against an environment that itself obeys G; the store stub logs every mutation with caller, expected revision, outcome and previous owner, and the audit is evaluated on every explored path of the listed families.",
+    "level_note": "Relative to the reference store; bounded families; reductions R1/R2.",
+}
 PROPS["S00"] = {"groups": [{"run": "^vpH_S00_"}], "level_text": "engine smoke test", "level_note": ""}
 
 NOT_APPLICABLE = {}
